@@ -50,6 +50,15 @@ def Val.eq : Val → Val → Bool
 def floatMaxQ : Rat := ((2 ^ 1024 - 2 ^ 971 : Int) : Rat)
 def floatMax : Val := .fin floatMaxQ
 
+/-- `a <= b` on coordinates; ordering against `None` raises `TypeError` in Python — only reached behind a
+    `None in (...)` test in the translated source, so the value chosen here is never used -/
+def OQ.le : OQ → OQ → Bool
+  | some a, some b => decide (a ≤ b)
+  | _, _ => false
+def OQ.lt : OQ → OQ → Bool
+  | some a, some b => decide (a < b)
+  | _, _ => false
+
 def kindOfName : String → Option BKind
   | "bed-temperature" => some .bed
   | "chamber-temperature" => some .chamber
